@@ -19,6 +19,8 @@ import numpy as np
 from .. import common as C
 from .. import impl  # noqa: F401  (sets NUMBA_DISABLE_JIT, silences logging)
 
+PATHLINE_TIME_LIMIT_S = 30.0   # a returned pathline costs well under a second
+
 PARTIAL = [
     "everything about scipy.integrate.solve_ivp (LSODA steps, dense output, event root finding) is runtime: the "
     "pathline clauses (returned, ends at the final location at t=0, increasing timestamps, dx/dt=u, containment, "
@@ -748,11 +750,30 @@ def _pathlines(res, rng, thorough):
             if saved is not None:
                 P.si = types.SimpleNamespace(solve_ivp=recording)
             exc = None
+            if res.dist.get(f"pathline_timeout:{flow}", 0) >= 2:
+                res.count(f"pathline_skipped_after_timeouts:{flow}")   # already reported; do not spend 30 s on every further one
+                continue
+
+            class _PathlineTimeout(Exception):
+                pass
+
+            def _on_alarm(signum, frame):
+                raise _PathlineTimeout(f"no pathline after {PATHLINE_TIME_LIMIT_S} s")
+
+            import signal as _signal
+            old_handler = _signal.signal(_signal.SIGALRM, _on_alarm)
+            _signal.setitimer(_signal.ITIMER_REAL, PATHLINE_TIME_LIMIT_S)
             try:
                 ts, sol = P.get_pathline(p, u, L, lo, hi, ms, regular_steps=steps)
+            except _PathlineTimeout as e:
+                # "for every final location inside the box a pathline is returned": a pathline that is still being integrated
+                # after a time limit hundreds of times the normal cost (normal: < 0.1 s) is reported as not returned
+                exc = e
             except Exception as e:  # noqa: BLE001
                 exc = e
             finally:
+                _signal.setitimer(_signal.ITIMER_REAL, 0)
+                _signal.signal(_signal.SIGALRM, old_handler)
                 if saved is not None:
                     P.si = saved
             # model of the event on the recorded history (also for runs that raised)
@@ -768,6 +789,9 @@ def _pathlines(res, rng, thorough):
             if exc is not None:
                 msg = str(exc).split("\n")[0][:60]
                 key = f"pathline_raises:{flow}:{type(exc).__name__}:{msg}"
+                if type(exc).__name__ == "_PathlineTimeout":
+                    key = f"pathline_not_returned:{flow}:timeout"
+                    res.count(f"pathline_timeout:{flow}")
                 tail = [(t, v) for (t, _, v) in log[-4:]]
                 res.violation(key, f"get_pathline raised {type(exc).__name__}: {msg} for a final location inside the box "
                               f"({flow}, axes {AX[a]}{AX[b]}, params {prm}, final {p.tolist()}, max_strain {ms}); last event "
